@@ -18,8 +18,8 @@ import vlib
 
 PAIRS = ["tworeg", "samereg", "samerepo", "reg2dir", "dir2reg", "dir2dir"]
 REG_TARGET = ["tworeg", "samereg", "samerepo", "dir2reg"]
-INDEX_SHAPES = ["idx2", "nested", "docker", "artidx", "bentry"]
-REF_SHAPES = ["art", "artidx", "artshare"]
+INDEX_SHAPES = ["idx2", "nested", "docker", "artidx", "bentry", "sha512", "dupentry", "diamond"]
+REF_SHAPES = ["art", "artidx", "artshare", "sha512"]
 DTAG_SHAPES = ["dtag", "loop", "art"]
 AT_SBOM = "application/vnd.zzverif.sbom.v1"
 AT_SIG = "application/vnd.zzverif.sig.v1"
@@ -71,8 +71,16 @@ class Engine:
         s = {"id": "%s-%d" % (origin, self.n), "shape": shape, "pair": pair, "mount": 1, "headdigest": 1,
              "refapi_src": 1, "refapi_tgt": 1, "extup": 0, "cancel202": self.rng.choice([0, 1]), "opts": {}, "init": [],
              "tag0": "none",
-             "conc": 16, "mode": "random", "seed": self.rng.randrange(1 << 30), "origin": origin}
+             "conc": 16, "mode": "random", "seed": self.rng.randrange(1 << 30), "origin": origin,
+             # environment dimensions, drawn per scenario (pairwise coverage with everything else comes from the
+             # number of scenarios): progress callback, manifest / referrer cache of the reg scheme, chunked
+             # uploads (blobs above 128 bytes in 96 byte chunks), paged tag / referrer listings
+             "callback": self.rng.choice([0, 1]), "cache": self.rng.choice([0, 0, 1]),
+             "chunked": self.rng.choice([0, 0, 1]), "pagesize": self.rng.choice([0, 0, 1, 2])}
         s.update(kw)
+        if s["mode"] == "script":
+            # (D) has one request per upload / listing and no cache: keep its scripts exact
+            s.update(cache=0, chunked=0, pagesize=0)
         return s
 
     def run(self, scns, label):
@@ -111,7 +119,7 @@ class Engine:
         out = [{}]
         out.append({"force": 1})
         if shape in INDEX_SHAPES:
-            out.append({"platforms": "linux/amd64"})
+            out += [{"platforms": "linux/amd64"}, {"platforms": "linux/arm64,linux/amd64"}, {"platforms": "windows/amd64"}]
         if shape in REF_SHAPES:
             out += [{"referrers": 1}, {"referrers": 1, "reffilter": AT_SBOM}, {"referrers": 1, "force": 1},
                     {"referrers": 1, "fast": 1},
@@ -187,9 +195,9 @@ class Engine:
                                 if sh == "ext":
                                     kw["extup"] = self.rng.choice([0, 1])
                                 s = self.scn(sh, pair, origin, opts=dict(opts), init=init, tag0=tag0,
-                                             mode=self.rng.choice(modes), conc=self.rng.choice([3, 16]), **kw)
-                                if self.rng.random() < 0.15:
-                                    s["bydigest"] = 1
+                                             mode=self.rng.choice(modes), conc=self.rng.choice([1, 3, 16]), **kw)
+                                if self.rng.random() < 0.2:
+                                    s["bydigest"] = self.rng.choice([1, 1, 2])     # by digest / by tag and digest
                                 if self.rng.random() < 0.08 and pair != "samerepo":
                                     s["tgtbydigest"] = 1
                                 out.append(s)
